@@ -660,6 +660,12 @@ class TaskScenario(ScenarioData):
         lowerLimit = self.project.dateToIdx(self.project["start"])
         upperLimit = self.project.dateToIdx(self.project["end"])
 
+        # A walk that would begin outside the project time frame (task pinned before the
+        # project start or after its end) cannot place anything: report it as not schedulable
+        if self.currentSlotIdx < lowerLimit or self.currentSlotIdx > upperLimit:
+            self.isRunAway = True
+            return False
+
         previous_effort = self.doneEffort
         while self.scheduleSlot():
             # Track first booked slot for ALAP (when effort actually increases)
